@@ -13,7 +13,11 @@ RULE = ('(1) primitives: every string over a 14-letter hostile alphabet up to le
         '(3) every registry value class of src/registry.py and src/conf.py (inventory regenerated, unknown class = error): generated texts through X.set '
         '(accepted and rejected), then the accepted value is written by the real registry.close to a scratch file, read by the real '
         'registry.open_registry(clear=True) and set on a fresh instance; (4) hostile file texts through open_registry; (5) histories of '
-        'set/setValue/reset/getSpecific on a channel value at global, network, channel and network+channel level, with a save/reload at the end. '
+        'set/setValue/reset/getSpecific on a channel value at global, network, channel and network+channel level, with a save/reload at the end; '
+        '(6) generations: several variables (camelCase and lower-case names, nested ones, global/network/channel flavour) registered on a private group with the REAL '
+        'conf.registerGlobalValue/registerNetworkValue/registerChannelValue, settings made in generation 0, then k times: load the previous file into registry._cache, '
+        'register again, optionally read some values, save -- the saved lines and the values read are compared with the model (loader cache + registration scan) and '
+        'between generations (a session that sets nothing must save what it loaded); one history runs on the real supybot.conf tree with one process per session. '
         'Each case runs on the implementation and on the extracted model and is diffed; the property clauses (reload equality, file loads, rejected set '
         'leaves the value, specific-value resolution) are evaluated directly on the implementation.  non-trivial = distinct input other than the empty text')
 TRUSTED = ['float()/repr(float), json, textwrap.wrap, perlReToPythonRe: classes built on them (Float family, Json, NormalizedString, Regexp, Servers, Databases, Banmask, HttpProxy, SocketTimeout) are checked on the implementation only, not modelled',
@@ -28,7 +32,7 @@ TRUSTED = ['float()/repr(float), json, textwrap.wrap, perlReToPythonRe: classes 
 ASSUMPTIONS = ['world.testing/log.testing off; locale encoding UTF-8; integers within 62 bits on the model wire',
                'private registry.Group trees and a scratch file; registry._cache/_lastModified are restored after every load']
 LEVEL_TEXT = ('Coq theorems over an executable Gallina model of src/registry.py (names, unicode_escape codec, repr/string-literal evaluation, value classes, '
-              'value lines of close(), the reader open_registry(), the Value tree with _makeChild/_setValue/getSpecific): name split/join round trip and '
+              'value lines of close(), the reader open_registry(), the Value tree with _makeChild/_setValue/getSpecific, the loader cache with the register*Value scans of src/conf.py): name split/join round trip and '
               'save/reload round trips proved for all inputs on decidable domains with refuting witnesses outside them (finding C15.F23 remains; C15.F16, F22, F24, F25 are repaired); the model is tied to '
               'the source by a regenerated class inventory + constant tables and by a differential run against the real registry/conf classes on every check.')
 LEVEL_NOTE = ('Trusted: Coq kernel, table extractor, extraction + OCaml driver, the Python harness; CPython primitives listed in trusted_base; '
@@ -230,7 +234,7 @@ def cls_comma_set(inp):
             and any(x != x.strip() for x in inp['value'][1]))
 
 
-CLASSES = {'comma_set_edge_blank': cls_comma_set}
+CLASSES = {'comma_set_edge_blank': cls_comma_set, 'network_only_not_reinstantiated': lambda inp: cls_net_only(inp)}
 
 # witnesses of repaired defects (findings/C15.json "fixed"): run first on every check, nothing attributes them to a finding
 CORPUS_FIXED = [
@@ -656,6 +660,279 @@ def check_tree(ctx, inp, mo):
         ctx.fail(inp, 'op %d: %s' % fails[0])
 
 
+# ---------------------------------------------------------------- (6) generations: load / register / (read) / save, repeatedly
+GROOT = 'verifc15g'
+FLAVORS = {'global': 0, 'network': 1, 'channel': 2}
+
+
+def gaddr_wire(a):
+    return addr_wire(a)
+
+
+def gens_wire(inp):
+    decls = []
+    for v in inp['vars']:
+        q = v['cls']
+        decls.append([[GROOT] + v['ns'], FLAVORS[v['flavor']], wire_kind(q), to_wire_pv(canon(q, default_of(q)))])
+    gens = []
+    for ops in inp['gens']:
+        gens.append([[0, o[1], gaddr_wire(o[2]), o[3]] if o[0] == 'set' else [1, o[1], gaddr_wire(o[2])] for o in ops])
+    return [7, [decls, gens]]
+
+
+def file_lines(fn):
+    with open(fn, newline='') as f:
+        text = f.read()
+    return sorted(l for l in text.split('\n') if l.strip() and not l.startswith('#'))
+
+
+def real_generation(inp, g, prev_file, out_file):
+    """one session on private groups built with the real conf.register*Value functions.
+    returns ('ok', lines, reads) | ('raise', name)"""
+    m = mods()
+    r, conf = m.registry, m.conf
+    fakes = [FakeIrc(n) for n in NETS]
+    m.world.ircs.extend(fakes)
+    try:
+        with keep_cache():
+            if prev_file is None:
+                r._cache.data.clear()
+            else:
+                r.open_registry(prev_file, clear=True)
+            root = r.Group()
+            root.setName(GROOT)
+            nodes = []
+            for v in inp['vars']:
+                grp = root
+                for comp in v['ns'][:-1]:
+                    grp = conf.registerGroup(grp, comp)
+                val = cls_of(v['cls'])(default_of(v['cls']), '')
+                reg = {'global': conf.registerGlobalValue, 'network': conf.registerNetworkValue, 'channel': conf.registerChannelValue}[v['flavor']]
+                nodes.append(reg(grp, v['ns'][-1], val))
+            reads = []
+            for o in inp['gens'][g]:
+                base = nodes[o[1]]
+                a = o[2]
+                q = inp['vars'][o[1]]['cls']
+                if o[0] == 'set':
+                    n_ = base if a[0] == 'g' else (base.get(a[1]) if a[0] == 'c' else (base.get(':' + a[1]) if a[0] == 'n' else base.get(':' + a[1]).get(a[2])))
+                    try:
+                        n_.set(o[3])
+                    except r.InvalidRegistryValue:
+                        pass          # a rejected text: the value stays
+                else:
+                    net = a[1] if a[0] in ('n', 'nc') else None
+                    chan = a[1] if a[0] == 'c' else (a[2] if a[0] == 'nc' else None)
+                    reads.append(canon(q, base.getSpecific(network=net, channel=chan)()))
+            r.close(root, out_file)
+            return ('ok', file_lines(out_file), reads)
+    except Exception as e:
+        return ('raise', exn_name(e))
+    finally:
+        for f in fakes:
+            m.world.ircs.remove(f)
+
+
+def run_gens(ctx, inp, mo):
+    """several generations; returns list of failure strings (direct oracle) and records disagreements"""
+    m = mods()
+    fails = []
+    outs = []
+    prev = None
+    for g in range(len(inp['gens'])):
+        fn = m.fn + '.g%d' % (g % 2)
+        res = real_generation(inp, g, prev, fn)
+        outs.append(res)
+        if res[0] == 'raise':
+            fails.append('generation %d: the session raised %s' % (g, res[1]))
+            break
+        prev = fn
+    # direct oracle: a session that sets nothing saves what it loaded; the settings read back equal in every generation
+    ok = [o for o in outs if o[0] == 'ok']
+    for g in range(1, len(ok)):
+        if not any(o[0] == 'set' for o in inp['gens'][g]) and ok[g][1] != ok[g - 1][1]:
+            lost = [l for l in ok[g - 1][1] if l not in ok[g][1]]
+            extra = [l for l in ok[g][1] if l not in ok[g - 1][1]]
+            fails.append('generation %d saved a different file than it loaded: lost %r, new %r' % (g, lost[:4], extra[:4]))
+            break
+    if len(ok) >= 2 and inp.get('final_reads'):
+        # the trailing reads of generation 0 and of the last generation are the same list of addresses
+        k = inp['final_reads']
+        if ok[0][2][-k:] != ok[-1][2][-k:] and not fails:
+            fails.append('values read back in generation %d differ from generation 0: %r vs %r' % (len(ok) - 1, ok[-1][2][-k:], ok[0][2][-k:]))
+    if mo is not None:
+        mm = []
+        for x in mo:
+            rr = wire.r(x, lambda pr: pr)
+            if rr[0] == 'raise':
+                mm.append(('raise', 'InvalidRegistryValue' if rr[1] == 'InvalidRegistryValue' else rr[1]))
+            else:
+                lines = sorted('%s: %s' % (wire.s(kv[0]), m.registry.encoder(wire.s(kv[1]))[0].decode()) for kv in rr[1][0])
+                vals = rr[1][1]
+                mm.append(('ok', lines, vals))
+        cmp_impl = []
+        for i, o in enumerate(outs):
+            cmp_impl.append(o)
+        same = len(mm) == len(cmp_impl)
+        if same:
+            for a, b, in zip(mm, cmp_impl):
+                if a[0] != b[0]:
+                    same = False
+                elif a[0] == 'ok':
+                    qs = [inp['vars'][o[1]]['cls'] for g_ in [0] for o in []]
+                    if a[1] != b[1]:
+                        same = False
+        if same:
+            # read values: decode with the class of each read
+            for g, (a, b) in enumerate(zip(mm, cmp_impl)):
+                if a[0] == 'ok':
+                    rq = [inp['vars'][o[1]]['cls'] for o in inp['gens'][g] if o[0] == 'read']
+                    av = [canon_model(q, v) for q, v in zip(rq, a[2])]
+                    if av != b[2]:
+                        same = False
+        if not same and ('raise', 'OtherError') not in [x[:2] for x in mm]:
+            ctx.disagree(inp, [x[:2] for x in mm], [x[:2] for x in cmp_impl], 'generations: saved lines / values read')
+    return fails
+
+
+def check_gens(ctx, inp, mo):
+    ctx.case('generations', inp)
+    fails = run_gens(ctx, inp, mo)
+    if fails:
+        ctx.fail(inp, fails[0])
+
+
+def cls_net_only(inp):
+    """C15.F27: a network-level specific value (<var>.:net) that no <var>.:net.#chan line re-instantiates"""
+    if inp.get('op') == 'real_gens':
+        return any(c[1] and not c[2] for c in inp['cases'])
+    if inp.get('op') != 'gens':
+        return False
+    for o in inp['gens'][0]:
+        if o[0] == 'set' and o[2][0] == 'n':
+            fl = inp['vars'][o[1]]['flavor']
+            if fl == 'network':
+                return True
+            if not any(p[0] == 'set' and p[1] == o[1] and p[2][0] == 'nc' and p[2][1].lower() == o[2][1].lower() for p in inp['gens'][0]):
+                return True
+    return False
+
+
+GVARS = [(['reply', 'mores'], 'channel', 'registry.Boolean'), (['reply', 'mores', 'maximum'], 'channel', 'registry.PositiveInteger'),
+         (['reply', 'whenAddressedBy', 'chars'], 'channel', 'registry.String'), (['reply', 'inPrivate'], 'channel', 'registry.Boolean'),
+         (['reply', 'format', 'list', 'maximumItems'], 'channel', 'registry.Integer'), (['plugins', 'Foo', 'bar'], 'channel', 'registry.SpaceSeparatedListOfStrings'),
+         (['Ident'], 'global', 'registry.String'), (['nick', 'alternates'], 'global', 'registry.SpaceSeparatedListOfStrings'),
+         (['networks', 'neta', 'saslUser'], 'network', 'registry.String'), (['protocols', 'irc', 'umodes'], 'network', 'registry.String'),
+         (['a.b', 'c:d'], 'channel', 'registry.String'), (['quotes'], 'channel', 'registry.String')]
+GTEXTS = {'registry.Boolean': ['True', 'False', 'on'], 'registry.PositiveInteger': ['3', '50'], 'registry.Integer': ['4', '-1'],
+          'registry.String': ['!%', 'x y', '"', "it's", '', 'a: b', '\\'], 'registry.SpaceSeparatedListOfStrings': ['a b', '', '#x y']}
+GCHANS = ['#chan', '#Other', '&x', '#a.b']
+
+
+def ggen(rng, with_net_only=False):
+    picks = rng.sample(GVARS, rng.randint(1, 5))
+    picks.sort(key=lambda v: GVARS.index(v))           # parents are registered before nested variables
+    vars_ = [{'ns': ns, 'flavor': fl, 'cls': q} for ns, fl, q in picks]
+    sets, addrs = [], []
+    for i, v in enumerate(vars_):
+        for _ in range(rng.randint(0, 3)):
+            if v['flavor'] == 'global':
+                a = ['g']
+            elif v['flavor'] == 'network':
+                a = rng.choice([['g'], ['n', rng.choice(NETS)]]) if with_net_only else ['g']
+            else:
+                t = rng.random()
+                a = ['c', rng.choice(GCHANS)] if t < 0.45 else (['nc', rng.choice(NETS), rng.choice(GCHANS)] if t < 0.85 else
+                                                                 (['n', rng.choice(NETS)] if with_net_only else ['g']))
+            sets.append(['set', i, a, rng.choice(GTEXTS[v['cls']])])
+            addrs.append((i, a))
+    final = [['read', i, a] for i, a in addrs]
+    gens = [sets + final]
+    for g in range(rng.randint(1, 3)):
+        reads = [['read', i, a] for i, a in addrs if rng.random() < 0.2]
+        gens.append(reads if g < 1 or rng.random() < 0.7 else reads)
+    gens[-1] = gens[-1] + final
+    return {'op': 'gens', 'vars': vars_, 'gens': gens, 'final_reads': len(final)}
+
+
+CORPUS_GENS = [
+    {'op': 'gens', 'vars': [{'ns': ['reply', 'whenAddressedBy', 'chars'], 'flavor': 'channel', 'cls': 'registry.String'}],
+     'gens': [[['set', 0, ['c', '#chan'], '!%'], ['set', 0, ['nc', 'neta', '#other'], '+'], ['read', 0, ['c', '#chan']], ['read', 0, ['nc', 'neta', '#other']]],
+              [], [['read', 0, ['c', '#chan']], ['read', 0, ['nc', 'neta', '#other']]]], 'final_reads': 2},
+    {'op': 'gens', 'vars': [{'ns': ['reply', 'mores'], 'flavor': 'channel', 'cls': 'registry.Boolean'},
+                            {'ns': ['reply', 'mores', 'maximum'], 'flavor': 'channel', 'cls': 'registry.PositiveInteger'}],
+     'gens': [[['set', 0, ['c', '#chan'], 'False'], ['set', 1, ['c', '#chan'], '3'], ['read', 0, ['c', '#chan']], ['read', 1, ['c', '#chan']]],
+              [], [], [['read', 0, ['c', '#chan']], ['read', 1, ['c', '#chan']]]], 'final_reads': 2},
+]
+
+# the real configuration tree of supybot.conf, one process per session (conf can be built once per process)
+REAL_CASES = [['supybot.reply.mores', None, '#chan', 'False'], ['supybot.reply.mores', 'test', '#chan', 'False'],
+              ['supybot.reply.inPrivate', None, '#chan', 'True'], ['supybot.reply.whenAddressedBy.chars', None, '#chan', '!%'],
+              ['supybot.reply.whenAddressedBy.chars', 'test', '#other', '+'], ['supybot.reply.format.list.maximumItems', None, '#chan', '4'],
+              ['supybot.replies.success', 'test', '#chan', 'Done: it worked.'], ['supybot.commands.quotes', None, '#chan', "'"]]
+SESSION_SRC = r"""
+import json, os, sys
+repo, tmp, n, cases = sys.argv[1], sys.argv[2], int(sys.argv[3]), json.loads(sys.argv[4])
+os.chdir(tmp); sys.path.insert(0, repo)
+import supybot.registry as registry
+files = [os.path.join(tmp, 's%d.conf' % i) for i in range(8)]
+registry.open_registry(files[n - 1])
+import supybot.conf as conf
+conf.supybot.flush.setValue(False)
+def node(name, net, chan):
+    g = conf.supybot
+    for part in name.split('.')[1:]:
+        g = g.get(part)
+    if net:
+        g = g.get(':' + net)
+    return g.get(chan) if chan else g
+vals = None
+if n == 1:
+    for name, net, chan, text in cases:
+        node(name, net, chan).set(text)
+if n == 1 or n == int(sys.argv[5]):
+    vals = [repr(node(name, net, chan)()) for name, net, chan, text in cases]
+registry.close(conf.supybot, files[n])
+keys = set()
+for name, net, chan, text in cases:
+    keys.add(node(name, net, chan)._name)
+lines = sorted(l.rstrip('\n') for l in open(files[n]) if l.split(': ')[0] in keys)
+print('RESULT ' + json.dumps({'vals': vals, 'lines': lines}))
+"""
+
+
+def check_real_gens(ctx, inp):
+    import subprocess, tempfile, shutil, json as _json
+    ctx.case('generations-real-conf', inp)
+    tmp = tempfile.mkdtemp(prefix='c15s_', dir=os.path.dirname(mods().fn))
+    try:
+        for sub in ('data', 'conf', 'logs', 'backup'):
+            os.makedirs(os.path.join(tmp, sub))
+        with open(os.path.join(tmp, 's0.conf'), 'w') as f:
+            f.write('supybot.directories.data: %(t)s/data\nsupybot.directories.conf: %(t)s/conf\nsupybot.directories.log: %(t)s/logs\n'
+                    'supybot.directories.backup: %(t)s/backup\nsupybot.networks.test.server: x\nsupybot.nick: test\nsupybot.log.stdout: False\n' % {'t': tmp})
+        last = inp['sessions']
+        res = []
+        for n in range(1, last + 1):
+            p = subprocess.run([sys.executable, '-c', SESSION_SRC, boot.REPO, tmp, str(n), _json.dumps(inp['cases']), str(last)],
+                               stdout=subprocess.PIPE, stderr=subprocess.PIPE, text=True, env=dict(os.environ, PYTHONHASHSEED='0'))
+            out = [l for l in p.stdout.split('\n') if l.startswith('RESULT ')]
+            if p.returncode != 0 or not out:
+                ctx.fail(inp, 'session %d of the real configuration failed: %s' % (n, p.stderr[-300:]))
+                return
+            res.append(_json.loads(out[0][7:]))
+        for n in range(1, last):
+            if res[n]['lines'] != res[0]['lines']:
+                lost = [l for l in res[0]['lines'] if l not in res[n]['lines']]
+                ctx.fail(inp, 'session %d (load, touch nothing, save) dropped lines of the configuration: %r' % (n + 1, lost[:5]))
+                return
+        if res[-1]['vals'] != res[0]['vals']:
+            ctx.fail(inp, 'values after %d restarts %r differ from the values set %r' % (last - 1, res[-1]['vals'], res[0]['vals']))
+    finally:
+        shutil.rmtree(tmp, True)
+
+
+
 # ---------------------------------------------------------------- generators
 def gstr(rng, maxlen=8, alpha=None):
     alpha = alpha or (ALPHA + EXTRA)
@@ -910,6 +1187,14 @@ def _run(ctx):
     outs = ctx.model([tree_wire(t) for t in trees])
     for t, mo in zip(trees, outs):
         check_tree(ctx, t, mo)
+    # (6) generations
+    gl = list(CORPUS_GENS)
+    for i in range(ctx.n(150)):
+        gl.append(ggen(rng, with_net_only=(i % 10 == 0)))
+    outs = ctx.model([gens_wire(g) for g in gl])
+    for g, mo in zip(gl, outs):
+        check_gens(ctx, g, mo)
+    check_real_gens(ctx, {'op': 'real_gens', 'cases': REAL_CASES, 'sessions': 3})
 
 
 def replay(ctx, inp):
@@ -927,10 +1212,20 @@ def replay(ctx, inp):
         do_reload(sub, inp)
     elif op == 'tree':
         check_tree(sub, inp, None)
+    elif op == 'gens':
+        check_gens(sub, inp, None)
+    elif op == 'real_gens':
+        check_real_gens(sub, inp)
     return sub.failures[0]['detail'] if sub.failures else None
 
 
 def shrink(ctx, inp):
+    if inp.get('op') == 'gens':
+        cur = inp
+        g0 = shrink_seq(cur['gens'][0], lambda o: replay(ctx, dict(cur, gens=[o] + cur['gens'][1:], final_reads=0)) is not None, budget=60)
+        if replay(ctx, dict(cur, gens=[g0] + cur['gens'][1:], final_reads=0)) is not None:
+            cur = dict(cur, gens=[g0] + cur['gens'][1:], final_reads=0)
+        return cur
     if inp.get('op') == 'tree':
         ops = shrink_seq(inp['ops'], lambda o: replay(ctx, dict(inp, ops=o)) is not None, budget=120)
         return dict(inp, ops=ops)
